@@ -1,6 +1,7 @@
 package main
 
 import (
+	"os"
 	"fmt"
 	"go/token"
 	"go/types"
@@ -243,8 +244,14 @@ func (e *Engine) applySched(st *State, o schedOpt, op string, pos token.Pos) {
 	}
 }
 
+var traceAllOps = os.Getenv("GOSMT_TRACE_ALL") != ""
+
 // schedPoint is invoked at the top of every visible operation.
 func (e *Engine) schedPoint(st *State, th *Thread, op string, pos token.Pos) {
+	if traceAllOps {
+		// debugging aid: record every visible operation, not only the context switches
+		st.trace = append(st.trace, SchedEvent{Thread: th.id, Op: "·" + op, Pos: posOf(e.prog, pos)})
+	}
 	if th.granted {
 		return
 	}
